@@ -3,7 +3,7 @@ from .common import SCALAR, A_COMMON
 TARGETS = [("rel", "%s_reset_fresh" % c) for c in ("DDM", "EDDM", "STEPD", "PageHinkley")] + \
           [("frame", "%s_update_reads" % c) for c in ("DDM", "EDDM", "STEPD", "PageHinkley")] + \
           [("fn", SCALAR[c] + ".reset") for c in ("DDM", "EDDM", "STEPD", "PageHinkley", "CUSUM")] + \
-          [("fn", "menelaus.data_drift.kdq_tree:KdqTreeStreaming.reset"), ("fn", "menelaus.data_drift.kdq_tree:KdqTreeBatch.reset"),
+          [("fn", SCALAR["CUSUM"] + ".update"), ("fn", "menelaus.data_drift.kdq_tree:KdqTreeStreaming.reset"), ("fn", "menelaus.data_drift.kdq_tree:KdqTreeBatch.reset"),
            ("fn", "menelaus.data_drift.histogram_density_method:HistogramDensityMethod.reset"),
            ("fn", "menelaus.data_drift.histogram_density_method:HistogramDensityMethod.set_reference")]
 LEVEL = "proof"
